@@ -505,8 +505,79 @@ class CFTimeInt32(CFTime):
                 n, self.unit, self.ref, out[0])
         return {'obs': {'us': us}, 'violations': viol}
 
+class SynthTime(Tflag):
+    """conventions.ioapi add_time_variable: the CF time coordinate synthesised
+    from an IOAPI file's flags decodes (seconds since 1970-01-01 UTC) to the
+    instants of the flags"""
+
+    def __init__(self, T):
+        Tflag.__init__(self, T, False)
+        self.name = 'synthesised-time[T=%d]' % T
+        self.bounds = {'T': T, 'years': '1900..2200'}
+
+    EPOCH = None
+
+    def sym(self, ctx, h):
+        sp = self.space()
+        F = sp.twin('PseudoNetCDF.core._files').PseudoNetCDFFile
+        conv = sp.twin('PseudoNetCDF.conventions.ioapi._ioapi')
+        flags, refs = [], []
+        for t in range(self.T):
+            y, j = _valid_date(ctx, 'd%d' % t, 1900, 2200)
+            H, M, S = _valid_time(ctx, 't%d' % t)
+            flags.append((y * 1000 + j, H * 10000 + M * 100 + S))
+            refs.append(ref_instant(y, j, H, M, S))
+        f = self._build(F, flags, 10000, True)
+        f.SDATE, f.STIME = flags[0]
+        try:
+            self._profile(conv.add_time_variable, f, 'time')
+            tv = f.variables['time']
+            vals = [tv[t] for t in range(self.T)]
+            units = str(tv.units)
+        except Exception as ex:
+            h.candidate('raised:' + type(ex).__name__, repr(ex)[:200])
+            return
+        h.claim('units', z3.BoolVal(units.startswith(
+            'seconds since 1970-01-01 00:00:00')))
+        epoch = ref_instant(1970, 1, 0, 0, 0)
+        for t in range(self.T):
+            h.claim('instant[%d]' % t, common.eq_expr(
+                vals[t] * US, refs[t] - epoch))
+        h.observe('seconds', vals)
+
+    def real(self, inputs):
+        import warnings
+        RF = common.real_files()
+        from PseudoNetCDF.conventions.ioapi._ioapi import add_time_variable
+        flags, refs = [], []
+        for t in range(self.T):
+            y, j = _g(inputs, 'd%d_y' % t, 2000), _g(inputs, 'd%d_j' % t, 1)
+            H, M, S = (_g(inputs, 't%d_%s' % (t, c)) for c in 'HMS')
+            flags.append((y * 1000 + j, H * 10000 + M * 100 + S))
+            refs.append(ref_instant(y, j, H, M, S))
+        f = self._build(RF.PseudoNetCDFFile, flags, 10000, False)
+        f.SDATE, f.STIME = flags[0]
+        viol = {}
+        try:
+            with warnings.catch_warnings():
+                warnings.simplefilter('ignore')
+                add_time_variable(f, 'time')
+                vals = [float(x) for x in f.variables['time'][:]]
+        except Exception as ex:
+            viol['raised:' + type(ex).__name__] = repr(ex)[:200]
+            return {'obs': {}, 'violations': viol}
+        epoch = ref_instant(1970, 1, 0, 0, 0)
+        for t in range(self.T):
+            if vals[t] * US != refs[t] - epoch:
+                viol['instant[%d]' % t] = 'flag %r synthesised as %r s' % (
+                    flags[t], vals[t])
+        return {'obs': {'seconds': vals}, 'violations': viol}
+
+
 def obligations(tier):
     obs = []
+    for T in ((1,) if tier == 'quick' else (1, 2)):
+        obs.append(SynthTime(T))
     Ts = (1, 2) if tier == 'quick' else (1, 2, 3, 4)
     for T in Ts:
         for b in (False, True):
